@@ -30,7 +30,8 @@ def isIntegerWith (needDigit : Bool) (s : List Char) : Bool :=
     let ds := skipSign cs
     if needDigit && ds.isEmpty then false else ds.all isDigit
 
-/-- the original code -/
+/-- the ORIGINAL code (before fix 5c79698: also accepts a lone `+` / `-`) — NOT what the tree contains (that is
+    `isIntegerCur`); kept for the HISTORY theorems of C18 and for C11's comparison of the recognisers -/
 def isInteger (s : List Char) : Bool := isIntegerWith false s
 
 /-- the variant the current tree contains -/
